@@ -43,9 +43,41 @@ def load_proposed(chk, prop):
             chk.findings.open.setdefault(e["signature"], e)
 
 
-def run_lian_case(case, ruleset, tag, entry_names=None):
+def compensate_state_id_as_symbol_id():
+    """Compensation switch (classification only): emulate PathFinder._propagate_from_state with the repair of the
+    'a parent STATE's id is written into the symbol-tag table' defect, i.e. only SYMBOL predecessors receive a symbol tag."""
+    import lian.taint.taint_analysis as ta
+    from lian.config.constants import SFG_NODE_KIND
+    orig = ta.PathFinder._propagate_from_state
+
+    class _OnlySymbolPreds:
+        def __init__(self, g):
+            self.g = g
+
+        def predecessors(self, u):
+            return [v for v in self.g.predecessors(u) if v.node_type == SFG_NODE_KIND.SYMBOL]
+
+        def __getattr__(self, name):
+            return getattr(self.g, name)
+
+    def patched(self, u, u_tag, worklist, in_worklist):
+        real = self.ta.sfg
+        self.ta.sfg = _OnlySymbolPreds(real)
+        try:
+            return orig(self, u, u_tag, worklist, in_worklist)
+        finally:
+            self.ta.sfg = real
+    ta.PathFinder._propagate_from_state = patched
+
+
+COMPENSATIONS = {"state-id-taints-symbol-with-equal-id": compensate_state_id_as_symbol_id}
+
+
+def run_lian_case(case, ruleset, tag, compensate=()):
     """Write the project + settings, run the real pipeline, return reported flows as file/line pairs."""
     import pandas as pd   # noqa: F401  (child only)
+    for c in compensate:
+        COMPENSATIONS[c]()
     sc = common.scratch()
     root = os.path.join(sc, f"flow_{tag}")
     src_dir = os.path.join(root, "proj")
@@ -75,12 +107,13 @@ def run_lian_case(case, ruleset, tag, entry_names=None):
             raw = json.load(f)
         out["raw"] = len(raw)
         gir = lianrun.read_bundles(wsd, "frontend", "gir")
-        line_of, unit_of = {}, {}
+        line_of, unit_of, op_of = {}, {}, {}
         if gir is not None:
-            for sid, row, uid in zip(gir["stmt_id"].tolist(), gir["start_row"].tolist(), gir["unit_id"].tolist()):
+            for sid, row, uid, op in zip(gir["stmt_id"].tolist(), gir["start_row"].tolist(), gir["unit_id"].tolist(), gir["operation"].tolist()):
                 if not lianrun.isnull(row):
                     line_of[int(sid)] = int(row) + 1
                     unit_of[int(sid)] = int(uid)
+                    op_of[int(sid)] = str(op)
         unit_path = {}
         ms = lianrun.read_feather(wsd, "frontend", "module_symbols")
         if ms is not None:
@@ -99,7 +132,7 @@ def run_lian_case(case, ruleset, tag, entry_names=None):
             if line_of[s] != fl.get("source_line") or line_of[k] != fl.get("sink_line"):
                 out["line_mismatch"] += 1
             out["flows"].append((sf, line_of[s], kf, line_of[k]))
-            out["texts"][(sf, line_of[s], kf, line_of[k])] = (str(fl.get("source")), str(fl.get("sink")))
+            out["texts"][(sf, line_of[s], kf, line_of[k])] = (str(fl.get("source")), str(fl.get("sink")), op_of.get(s), op_of.get(k))
     return out
 
 
